@@ -52,7 +52,7 @@ CHECKS['C05'] = dict(level='exploration', design='6/C05',
 CHECKS['C06'] = dict(level='exploration', design='6/C06',
     technique='property-based testing (Hypothesis): differential testing of one input under generated file partitions/orders, .idx subsets, index-directory reference (in-process) and --threads 2-5 / PYTHONHASHSEED values (console entry point in fresh processes) against a baseline run',
     text='For generated multi-gene inputs with skipped transcripts, every variant run (records split over 2-4 GVFs in any order, with .idx on a subset, reference as generateIndex directory, --threads 2-5 through pathos, hash seeds 1/2/3/random) must write exactly the baseline sequence set and exit 0.',
-    note='Thread counts and hash seeds are sampled; the scheduler inside pathos is not controlled (results are gathered in order). Subprocess cost bounds the volume (quick: 64 inputs x 5 variant runs).')
+    note='Thread counts and hash seeds are sampled; the scheduler inside pathos is not controlled (results are gathered in order). Two further probes vary nothing at all: the same command once more in a fresh process (address-space layout) and once more inside the checking process after other graphs were built (process history); both found genuine defects (c513c6d, eb6ad9f). Subprocess cost bounds the volume (quick: 64 inputs x 7 variant runs).')
 CHECKS['C07'] = dict(level='fault_enumeration', design='6/C07',
     technique='fault injection through a guarded hook + exhaustive enumeration of all 2^n fault subsets per generated input (property-based generation of the inputs); compositional oracle: output(F) = union of the surviving units run alone; exit-status / no-FASTA oracle without the flag; tally oracle',
     text='For generated inputs with 2-5 processing units (main call, fusions, circRNAs on shared transcripts) every subset of units is made to fail at its entry: with --skip-failed the run must complete, tally the failures per transcript and kind, carry no entry of a failed fusion/circRNA and equal the union of the outputs of the surviving units each run alone; without the flag any failure must abort and leave no FASTA. Sampled subsets are repeated with --threads 3 through the console entry point.',
@@ -64,7 +64,7 @@ CHECKS['C12'] = dict(level='exploration', design='6/C12',
 CHECKS['C18'] = dict(level='exploration', design='6/C18',
     technique='property-based testing (Hypothesis): conservation laws (each sequence exactly once, entries preserved) + independent model of the database choice for splitFasta, union law for mergeFasta, round trip through the .dict file for encodeFasta (incl. decoy-first order), cross-check summarizeFasta totals vs split sizes',
     text='Synthetic multi-entry FASTAs over a generated annotation and GVF source assignment are split (order / groups / max-groups / additional-split / wildcards), merged back, merged as overlapping halves, encoded (with decoy records in three orders) and summarized; every output is compared with an independent model of the documented behaviour.',
-    note='Database choice is modelled for orders of single sources and groups; with wildcards only conservation is checked. Groups mix only point-mutation sources or internal sources (mixing parsers summarizeFasta regards as mutually exclusive suppresses table rows). A split that does not finish within 60 s on <= 25 peptides is reported as a hang.')
+    note='Database choice is modelled for orders of single sources, groups and wildcard patterns (first pattern of the order that claims the source set); combination entries (A-B) in --order-source are not generated; mergeFasta --dedup-header is judged by its own rule (one entry per entry-minus-index). Groups mix only point-mutation sources or internal sources (mixing parsers summarizeFasta regards as mutually exclusive suppresses table rows). A split that does not finish within 60 s on <= 25 peptides is reported as a hang.')
 CHECKS['C19'] = dict(level='exploration', design='6/C19',
     technique='property-based testing (Hypothesis): exact expected output from an independent per-entry predicate (model-based), idempotence, monotonicity in cutoff and miscleavage range (metamorphic)',
     text='Synthetic multi-entry FASTAs x expression tables (values around the cutoff, named or numbered columns, skipped lines) x flags x denylists x closed miscleavage ranges x enzymes are filtered through the CLI with --index-dir; kept peptides and kept entries must equal what the stated rule gives; re-filtering is the identity; stricter settings keep sub-collections.',
